@@ -83,7 +83,8 @@ fn redeclare(img: &mut Value, which: u8, val: u8, dyn_img: Option<&Value>) -> Ve
         }
         1 => {
             // FRI layer count changed with step / layer / commitment / witness vectors resized to match
-            let n = get(img, "/config/fri/n_layers") as usize;
+            // (the current value may itself be an extreme set by an earlier edit: keep the resize small)
+            let n = (get(img, "/config/fri/n_layers") as usize).min(15);
             let new_n = [2usize, 3, n.saturating_sub(1).max(2), n + 1, 15][val as usize % 5];
             let resize = |a: &mut Vec<Value>, len: usize| {
                 while a.len() > len {
